@@ -1441,3 +1441,179 @@ func ruleRetryPredicate(p *Prog, r *Out) {
 		r.check(bounded && inc != nil && inc.Tok == token.INC && initOK && n >= 1 && n <= 16, "RoundTrip bounds its attempts", p.pos(loop.Pos()), "for attempt := 0; ; attempt++ { ...; if attempt == N-1 { return true, err } }", "the retry loop no longer counts its attempts up from zero to a small bound: a connection that keeps turning the request away keeps it spinning")
 	}
 }
+
+func init() {
+	register(&Rule{
+		Name: "send-loop-shape", Props: []string{"C06", "C01"}, Engine: "FDE", Floor: 4,
+		Doc: "one iteration of the server's DATA loop: the chunk is cut, END_STREAM is 'the body has ended and nothing is left after this chunk', the frame is queued, both windows are debited by the chunk with no way out of the iteration in between, and an iteration that sent END_STREAM leaves the loop (nothing more is asked of the body and no second END_STREAM can follow)",
+		Run: ruleSendLoopShape,
+	})
+}
+
+func ruleSendLoopShape(p *Prog, r *Out) {
+	fd := p.decl("(*serverConn).sendData")
+	if fd == nil {
+		r.undecided("(*serverConn).sendData", "?", "no longer resolves")
+		return
+	}
+	r.fn("(*serverConn).sendData")
+	var loop *ast.ForStmt
+	for _, s := range fd.Body.List {
+		if fs, ok := s.(*ast.ForStmt); ok && loop == nil {
+			loop = fs
+		}
+	}
+	if loop == nil {
+		r.bad("DATA loop", p.pos(fd.Pos()), "sendData has no loop")
+		return
+	}
+	list := loop.Body.List
+	writeIdx, lastDebit, debits, endDef, exitIdx := -1, -1, 0, -1, -1
+	var endExpr ast.Expr
+	for i, s := range list {
+		switch x := s.(type) {
+		case *ast.ExprStmt:
+			if c, ok := x.X.(*ast.CallExpr); ok && p.calleeOf(c) == "(*serverConn).write" {
+				writeIdx = i
+			}
+		case *ast.AssignStmt:
+			if x.Tok == token.SUB_ASSIGN && p.ubKey(x.Rhs[0]) == "step" {
+				l := squash(p.text(x.Lhs[0]))
+				if l == "strm.window" || l == "sc.clientWindow" {
+					debits++
+					lastDebit = i
+				}
+			}
+			if x.Tok == token.DEFINE && len(x.Lhs) == 1 && p.text(x.Lhs[0]) == "end" {
+				endDef, endExpr = i, x.Rhs[0]
+			}
+		case *ast.IfStmt:
+			if p.text(x.Cond) == "end" && len(x.Body.List) >= 1 {
+				switch b := x.Body.List[len(x.Body.List)-1].(type) {
+				case *ast.BranchStmt:
+					if b.Tok == token.BREAK {
+						exitIdx = i
+					}
+				case *ast.ReturnStmt:
+					exitIdx = i
+				}
+			}
+		}
+	}
+	plain := writeIdx >= 0 && lastDebit > writeIdx
+	if plain {
+		for _, s := range list[writeIdx+1 : lastDebit+1] {
+			switch s.(type) {
+			case *ast.AssignStmt, *ast.ExprStmt, *ast.IncDecStmt:
+			default:
+				plain = false
+			}
+		}
+	}
+	r.check(debits == 2 && plain, "queued chunk is debited from both windows before anything can leave the iteration", p.pos(loop.Pos()), "sc.write(fr); strm.window -= step; sc.clientWindow -= step", "between queuing the DATA frame and debiting the stream and connection windows there is a way out of the iteration (or a debit is missing): the octets of that frame are sent but never charged, so the server goes on to send more than the peer granted")
+	c := fdeCheck{p, r, p.pos(fd.Pos())}
+	c.expr("END_STREAM iff the body has ended and this chunk is its last", endExpr, fdeDomain{[]string{"strm.pendingEnd", "len(strm.pendingData)"}, [][]int64{{0, 1}, seq(0, 3)}}, nil, func(e fdeEnv) int64 {
+		return b2i(e["strm.pendingEnd"] != 0 && e["len(strm.pendingData)"] == 0)
+	}, "pendingEnd && len(pendingData) == 0", "END_STREAM on a chunk that is not the last truncates the response; not setting it on the last leaves the peer waiting")
+	// the chunk is cut before `end` is computed
+	cut := false
+	for _, s := range list[:max(endDef, 0)] {
+		if as, ok := s.(*ast.AssignStmt); ok && squash(p.text(as.Lhs[0])) == "strm.pendingData" && squash(p.text(as.Rhs[0])) == "strm.pendingData[step:]" {
+			cut = true
+		}
+	}
+	flagged := false
+	for _, s := range list {
+		if es, ok := s.(*ast.ExprStmt); ok {
+			if cl, ok := es.X.(*ast.CallExpr); ok && p.calleeOf(cl) == "(*Data).SetEndStream" && p.text(cl.Args[0]) == "end" {
+				flagged = true
+			}
+		}
+	}
+	r.check(cut && flagged && endDef < writeIdx, "END_STREAM is computed after the cut and put on the frame", p.pos(loop.Pos()), "pendingData = pendingData[step:]; end := ...; data.SetEndStream(end)", "the END_STREAM decision is no longer taken after the chunk was cut from the pending data and stored on the frame that carries the chunk")
+	r.check(exitIdx > lastDebit && lastDebit >= 0, "an iteration that sent END_STREAM leaves the loop", p.pos(loop.Pos()), "after the debits: if end { break }", "after a DATA frame with END_STREAM the loop goes round again: a streamed body is asked for more, answers (0, io.EOF), and a second, empty DATA frame with END_STREAM goes out on a stream that is already closed (STREAM_CLOSED at a strict peer)")
+}
+
+func init() {
+	register(&Rule{
+		Name: "no-phantom-field", Props: []string{"C01", "C02", "C03", "C20"}, Engine: "FDE", Floor: 2,
+		Doc: "both header-block readers (server request, client response) recognise a decoder call that consumed the rest of the fragment without producing a field (a dynamic table size update at the end of a HEADERS/CONTINUATION fragment) and skip it, before anything reads the field: otherwise the untouched, empty field object is validated and delivered as a regular field, and the pseudo-headers in the next fragment are refused",
+		Run: ruleNoPhantomField,
+	})
+}
+
+func ruleNoPhantomField(p *Prog, r *Out) {
+	for _, fn := range []string{"(*serverConn).handleHeaderFrame", "(*Conn).readHeader"} {
+		fd := p.decl(fn)
+		if fd == nil {
+			r.undecided(fn, "?", "no longer resolves")
+			continue
+		}
+		r.fn(fn)
+		var loop *ast.ForStmt
+		ast.Inspect(fd.Body, func(n ast.Node) bool {
+			if fs, ok := n.(*ast.ForStmt); ok && loop == nil {
+				dec := false
+				inspectCalls(fs.Body, func(c *ast.CallExpr) {
+					if nm := p.calleeOf(c); nm == "(*HPACK).nextField" || nm == "(*HPACK).Next" {
+						dec = true
+					}
+				})
+				if dec {
+					loop = fs
+				}
+			}
+			return true
+		})
+		if loop == nil {
+			r.bad(fn+" skips a call that decoded nothing", p.pos(fd.Pos()), "no decode loop found")
+			continue
+		}
+		decIdx, guardIdx, useIdx := -1, -1, -1
+		var guard *ast.IfStmt
+		for i, s := range loop.Body.List {
+			isDec := false
+			inspectCalls(s, func(c *ast.CallExpr) {
+				if nm := p.calleeOf(c); nm == "(*HPACK).nextField" || nm == "(*HPACK).Next" {
+					isDec = true
+				}
+			})
+			if isDec && decIdx < 0 {
+				decIdx = i
+				continue
+			}
+			if decIdx < 0 {
+				continue
+			}
+			if ifs, ok := s.(*ast.IfStmt); ok && guardIdx < 0 && strings.Contains(p.text(ifs.Cond), "hf.Empty()") && len(ifs.Body.List) >= 1 {
+				if b, ok := ifs.Body.List[len(ifs.Body.List)-1].(*ast.BranchStmt); ok && (b.Tok == token.BREAK || b.Tok == token.CONTINUE) {
+					guardIdx, guard = i, ifs
+					continue
+				}
+			}
+			// first use of the decoded field
+			if useIdx < 0 {
+				if ifs, ok := s.(*ast.IfStmt); ok && squash(p.text(ifs.Cond)) == "err!=nil" {
+					continue // the error check of the decode call
+				}
+				uses := false
+				ast.Inspect(s, func(n ast.Node) bool {
+					if id, ok := n.(*ast.Ident); ok && id.Name == "hf" {
+						uses = true
+					}
+					return true
+				})
+				if uses {
+					useIdx = i
+				}
+			}
+		}
+		key := fn + " skips a call that decoded nothing"
+		if guard == nil || (useIdx >= 0 && useIdx < guardIdx) {
+			r.bad(key, p.pos(loop.Pos()), fn+" uses the field object after every successful decoder call: a HEADERS or CONTINUATION fragment that ends in a dynamic table size update leaves the object empty, and that empty field is validated and delivered as a regular field (the pseudo-headers in the next fragment are then refused as 'after a regular field')")
+			continue
+		}
+		c := fdeCheck{p, r, p.pos(fd.Pos())}
+		c.expr(key, guard.Cond, fdeDomain{[]string{"len(b)", "hf.Empty()"}, [][]int64{seq(0, 2), {0, 1}}}, nil, func(e fdeEnv) int64 { return b2i(e["len(b)"] == 0 && e["hf.Empty()"] != 0) }, "len(b) == 0 && hf.Empty()", "only a call that used up the fragment can have ended in a size update; skipping on an empty field alone drops real fields, skipping on exhausted input alone drops the last field of every fragment")
+	}
+}
